@@ -15,6 +15,7 @@ import itertools
 from rv import util
 from rv.util import B, CLASSES, CLASS_NAMES, MUTABLE, STREAMS, call, exc_matches, lbucket, mk, rb
 
+AMBIENT = ['bytealigned', 'mxfp_overflow']      # options this property does not depend on: a quarter of the cases run with them switched
 PROP = 'C01'
 SHARDS = {'quick': 4, 'thorough': 16}
 RULE = ("cases: 4 classes x boundary length pool (0..8193, +20k/70k thorough) x content kinds x two routes "
